@@ -9,6 +9,14 @@ LEVEL_TEXT = ("seeded search over schedules, fault sequences and generated workl
               "recorded history. A clean batch is evidence, not proof: exploration is the honest level.")
 
 CHECKS = {
+ "C06": dict(
+   design="§C06",
+   technique="deterministic simulation on a fake clock (testing/synctest): seeded arrival processes against the real local token-bucket stack; pairwise window oracle and idle-refill oracle over the recorded (time, result) list",
+   note="Trusts: the bubble clock is the only clock the limiter reads (golang.org/x/time/rate via time.Now); epsilon of 1e-6 token (applied as the time it takes to earn epsilon tokens) for float rounding; concurrency is modelled as same-instant arrivals, the limiter's own mutex serialises real threads. 429 mapping is checked in the gw world."),
+ "C19": dict(
+   design="§C19",
+   technique="deterministic simulation with fault injection: real k8s objectStore over a simulated API with two sim points per call (error, lost acknowledgement, crash), seeded caller schedules on a fake clock, crash or graceful stop, successors Load(); durability oracle over the recorded operation history",
+   note="Trusts: simapi reproduces the API semantics the store relies on (unconditional update, NotFound/AlreadyExists/Conflict, status/spec separation); injected errors are only those a real API server may answer regardless of state (conflict, transient, timeout before or after applying); NotFound/AlreadyExists arise from the state itself. Specs (not status) are compared."),
  "C05": dict(
    design="§C05",
    technique="deterministic simulation: seeded statement-level interleaving of the real limiter stack (yield-instrumented overlay incl. the maxinflight dependency) + porcupine linearizability against a sequential max-in-flight model with epochs + drain check",
